@@ -11,6 +11,9 @@ CONSTANTS
   BufPool = FALSE
   TrackNeg = FALSE
   Once = FALSE
+  WsScript <- WsNone
+  WsPings = 0
+  WsSharedMsg = FALSE
 INIT Init
 NEXT Next
 VIEW view
